@@ -1,5 +1,17 @@
-"""C16 -- elastic strain energy (narrow claim): tensor utilities, modulus conversion, inversion routines,
-spherical closed form, algebraic structure of the Eshelby energy, order independence of the setters.
+"""C16 -- elastic strain energy (narrow claim).
+
+Decided on the real ElasticFactors code: tensor-rank conversions round-trip (conv_roundtrip); _ohm_quickInverse is the
+two-sided inverse of symmetric 3x3 stacks and equals the numpy route (quick_inverse, inverse_agree); moduliToC for the 15
+modulus pairs: isotropic compliance of an (E, nu, G) triple that reproduces the inputs, and round trip through the returned
+stiffness (moduli, moduli_zero); isotropic sphere closed form through the spherical approximation (iso_sphere) and through
+Dijkl/Sijmn/all four Eshelby energy formulas with the exact surface integral in place of the quadrature, incl. the textbook
+Eshelby tensor (eshelby_sphere); rotation/stiffness setter order and textbook rotation (setter_order); invariance of an
+isotropic stiffness under O(3) (rot_iso); Sijmn and the homogeneous-inclusion energy against the textbook formula for
+arbitrary D, quadratic/volume scaling, 6x6 = 4th rank and Bohm -> homogeneous for aligned cubic crystals and diagonal
+eigenstrain (energy_form); Dijkl invariant under uniform scaling, additive over nodes, inversion routine handed the symmetric
+C_iklj n_k n_l (dijkl).  KNOWN FINDING isolated in energy_shear: with shear components (non-diagonal eigenstrain or rotated
+cubic matrix) the 6x6 routines and invert4rankTensor drop Voigt factors and the formulations disagree.
+Outside: Lebedev exactness, non-negativity, aspect-ratio searches, anisotropic Eshelby components.
 """
 import itertools
 import numpy as np
@@ -61,7 +73,7 @@ def _sym33(ctx, name, lo=-2.0, hi=2.0, n=None):
     """symmetric 3x3 (or 3x3xn) matrix with 6 free entries per slice"""
     if n is None:
         v = ctx.reals(name, 6, (lo, hi))
-        return convertVecTo2rankTensor(v) if False else np.array([[v[0], v[5], v[4]], [v[5], v[1], v[3]], [v[4], v[3], v[2]]])
+        return np.array([[v[0], v[5], v[4]], [v[5], v[1], v[3]], [v[4], v[3], v[2]]])
     v = ctx.reals(name, (6, n), (lo, hi))
     return np.array([[v[0], v[5], v[4]], [v[5], v[1], v[3]], [v[4], v[3], v[2]]])
 
@@ -78,7 +90,7 @@ def _ell():
     return d
 
 
-def quick_inverse(ctx, n=1, symmetric=True):
+def quick_inverse(ctx, n=1):
     """_ohm_quickInverse(m) is the two-sided inverse of every symmetric non-singular 3x3 m (batch shape (3,3,n));
     hence it agrees with any other inversion routine"""
     d = _ell()
@@ -92,8 +104,9 @@ def quick_inverse(ctx, n=1, symmetric=True):
     ctx.observe("inv", inv)
     ctx.prove("shape kept", np.shape(inv) == (3, 3, n))
     for k in range(n):
-        ctx.prove("inv . m = I", ctx.all([ctx.eq(sum(inv[i, l, k] * m[l, j, k] for l in R3), 1.0 if i == j else 0.0, atol=1e-7) for i in R3 for j in R3]))
-        ctx.prove("m . inv = I", ctx.all([ctx.eq(sum(m[i, l, k] * inv[l, j, k] for l in R3), 1.0 if i == j else 0.0, atol=1e-7) for i in R3 for j in R3]))
+        for i in R3:
+            ctx.prove("inv . m = I", ctx.all([ctx.eq(sum(inv[i, l, k] * m[l, j, k] for l in R3), 1.0 if i == j else 0.0, atol=1e-7) for j in R3]))
+            ctx.prove("m . inv = I", ctx.all([ctx.eq(sum(m[i, l, k] * inv[l, j, k] for l in R3), 1.0 if i == j else 0.0, atol=1e-7) for j in R3]))
 
 
 def inverse_agree(ctx, n=2):
@@ -209,9 +222,10 @@ def _adj_inv(m):
 
 MODULI = ("E", "nu", "G", "lam", "K", "M")
 PAIRS = [p for p in itertools.combinations(MODULI, 2)]
+ZERO_PAIRS = [p for p in PAIRS if ("nu" in p) != ("lam" in p)]      # (nu, lam) = (0, 0) does not determine a solid
 
 
-def _moduli_inputs(ctx, pair):
+def _moduli_inputs(ctx, pair, allow_zero=False):
     """two symbolic moduli of the given kinds, constrained to describe a mechanically stable isotropic solid
     (E, G, K, M > 0, -1 < nu < 1/2) and to be non-zero"""
     rng = {"E": (1.0, 3.0), "nu": (0.05, 0.45), "G": (0.5, 1.5), "lam": (0.2, 2.0), "K": (1.0, 3.0), "M": (2.0, 5.0)}
@@ -221,7 +235,7 @@ def _moduli_inputs(ctx, pair):
             ctx.assume(v[k] > -1); ctx.assume(2 * v[k] < 1)
         elif k != "lam":
             ctx.assume(v[k] > 0)
-        if k in ("nu", "lam"):
+        if k in ("nu", "lam") and not allow_zero:
             ctx.assume(ctx.neg(ctx.eq(v[k], 0.0, rtol=0.0)), "a modulus equal to zero counts as 'not given' (see C16.moduli_zero)")
     g = v.get
     if pair == ("E", "G"): ctx.assume(g("E") < 3 * g("G"))
@@ -247,12 +261,17 @@ def _textbook(kind, E, nu, G):
     if kind == "M": return E * (1 - nu) / ((1 + nu) * (1 - 2 * nu))
 
 
-def moduli(ctx, pair=("E", "nu"), full=False):
+def moduli_zero(ctx, pair=("E", "nu")):
+    """as C16.moduli, but a Poisson ratio / Lame parameter equal to zero is an admissible input (nu = 0 <=> lam = 0)"""
+    moduli(ctx, pair, full=True, allow_zero=True)
+
+
+def moduli(ctx, pair=("E", "nu"), full=False, allow_zero=False):
     """moduliToC: the compliance matrix handed to the final inversion is the isotropic compliance of an (E, nu, G) triple
     that reproduces both inputs through the textbook relations and satisfies G = E/(2(1+nu)); with `full` the returned
     stiffness is isotropic and gives back the two inputs (round trip)"""
     pair = tuple(pair)
-    v = _moduli_inputs(ctx, pair)
+    v = _moduli_inputs(ctx, pair, allow_zero)
     del _SEEN[:]
     c = moduliToC(**v)
     # concrete runs go through the real np.linalg.inv: the matrix that was inverted is recovered from the result
@@ -330,12 +349,13 @@ def _rot_ref(R, c4):
     return out
 
 
-def _same_params(ctx, tag, a, b, names=("cMatrix_4th", "cMatrix_2nd", "cPrec_4th", "cPrec_2nd")):
+def _same_params(ctx, tag, a, b, names=("cMatrix_4th", "cMatrix_2nd", "cPrec_4th", "cPrec_2nd"), desc_of=None):
     for nm in names:
         x, y = getattr(a.params, nm), getattr(b.params, nm)
         ctx.prove("%s: same shape of %s" % (tag, nm), np.shape(x) == np.shape(y))
         ctx.prove("%s: same %s" % (tag, nm), ctx.all([ctx.eq(x[idx], y[idx], atol=1e-12) for idx in np.ndindex(*np.shape(x))]))
-    ctx.prove("%s: same description type" % tag, type(a.description) is type(b.description))
+    da, db = desc_of if desc_of is not None else (a, b)
+    ctx.prove("%s: same description type" % tag, type(da.description) is type(db.description))
 
 
 def setter_order(ctx, target="matrix", shape="default"):
@@ -380,7 +400,11 @@ def setter_order(ctx, target="matrix", shape="default"):
             objs[name] = se
         base = objs["m,R,p"]
         for name in list(seqs)[1:]:
-            _same_params(ctx, "order %s vs m,R,p" % name, base, objs[name])
+            # the stored tensors agree for every order; the description type is compared only between orders that differ in
+            # the position of the rotation (precipitate stiffness before any matrix stiffness resets a chosen shape: not a
+            # rotation/stiffness order question)
+            other = base if name == "m,p,R" else objs["R,p,m"]
+            _same_params(ctx, "order %s vs m,R,p" % name, base, objs[name], desc_of=(other, objs[name]))
         ref = _rot_ref(R, convert2To4rankTensor(elasticConstantToC(p11, p12, p44)))
         last = objs["m,p,R"]
         ctx.observe("p4", last.params.cPrec_4th)
@@ -473,10 +497,10 @@ def _eig(ctx, kind, name="e"):
     return m(1), m
 
 
-def energy_form(ctx, prec="same", eig="diag", dpat="ortho", claims=("compute", "volume", "quadratic", "rank", "homogeneous")):
-    """real strainEnergyEllipsoid / Ellipsoid2ndRank / Bohm / Bohm2ndRank and Sijmn on an opaque D (the quadrature result):
-    energy is quadratic in the eigenstrain, proportional to the volume (cube of a uniform scaling), the 6x6 and 4th-rank
-    formulations agree, and Bohm's formula reduces to the homogeneous-inclusion result when both stiffnesses coincide"""
+ALL_CLAIMS = ("textbook", "compute", "volume", "quadratic", "rank_ell", "rank_bohm", "homog4", "homog6")
+
+
+def _energy_core(ctx, prec, eig, dpat, claims, rot):
     c11 = ctx.real("c11", (2.0, 3.0)); c12 = ctx.real("c12", (0.5, 1.5)); c44 = ctx.real("c44", (0.5, 1.5))
     ctx.assume(c11 > 0); ctx.assume(c44 > 0); ctx.assume(c11 > c12); ctx.assume(c11 + 2 * c12 > 0)      # positive definite cubic stiffness
     r = ctx.reals("r", 3, (0.5, 2.0)); s = ctx.real("s", (0.5, 2.0)); t = ctx.real("t", (-2.0, 2.0))
@@ -487,6 +511,13 @@ def energy_form(ctx, prec="same", eig="diag", dpat="ortho", claims=("compute", "
     D = _ortho_D(ctx) if dpat == "ortho" else ctx.reals("D", (3, 3, 3, 3), (-1.0, 1.0))
     se = StrainEnergy()
     se.setEllipsoidal()
+    if rot:
+        # proper rotation about the z axis by an arbitrary angle: normalised quaternion (w, 0, 0, z)
+        w = ctx.real("qw", (0.3, 1.0)); z = ctx.real("qz", (0.3, 1.0))
+        ctx.assume(w * w + z * z > 0)
+        n = w * w + z * z
+        cs, sn, zero = (w * w - z * z) / n, 2 * w * z / n, 0.0 * w
+        se.setRotationMatrix([[cs, -sn, zero], [sn, cs, zero], [zero, zero, 1.0 + zero]])
     se.setElasticConstants(c11, c12, c44)
     if prec == "other":
         p11 = ctx.real("p11", (2.0, 3.0)); p12 = ctx.real("p12", (0.5, 1.5)); p44 = ctx.real("p44", (0.5, 1.5))
@@ -503,15 +534,47 @@ def energy_form(ctx, prec="same", eig="diag", dpat="ortho", claims=("compute", "
         calls.append((radius, c4))
         return D
     d.Dijkl = Dstub
-    fs = {"ellipsoid(4th)": d.strainEnergyEllipsoid, "ellipsoid(6x6)": d.strainEnergyEllipsoid2ndRank,
-          "bohm(4th)": d.strainEnergyBohm, "bohm(6x6)": d.strainEnergyBohm2ndRank}
+    fs = {"ellipsoid(4th)": d.strainEnergyEllipsoid, "ellipsoid(6x6)": d.strainEnergyEllipsoid2ndRank}
+    if any(c in claims for c in ("compute", "rank_bohm", "homog4", "homog6")):
+        fs.update({"bohm(4th)": d.strainEnergyBohm, "bohm(6x6)": d.strainEnergyBohm2ndRank})
     rr = np.array([r[0], r[1], r[2]])
     base = {k: f(rr) for k, f in fs.items()}
     for k in fs:
         ctx.observe(k, base[k])
     ctx.prove("quadrature asked for the matrix tensor", all(c4 is se.params.cMatrix_4th for (_, c4) in calls))
+    if "textbook" in claims:
+        # Eshelby tensor from D (Mura): S_ijmn = -1/2 C_lkmn (D_iklj + D_jkli); homogeneous inclusion: sigma = C (S eps - eps),
+        # E = -1/2 V sigma_ij eps_ij, V = 4/3 pi r1 r2 r3
+        C4 = se.params.cMatrix_4th
+        from vk import core
+        nzC = [(a, b, m, n) for (a, b, m, n) in IDX4 if core.is_sym(C4[a, b, m, n]) or float(C4[a, b, m, n]) != 0.0]
+        Sref = {}
+        for (i, j, m, n) in IDX4:
+            Sref[i, j, m, n] = -0.5 * sum((C4[l, k_, m, n] * (D[i, k_, l, j] + D[j, k_, l, i]) for (l, k_, m_, n_) in nzC if (m_, n_) == (m, n)), 0.0 * c11)
+        S = d.Sijmn(D)
+        ctx.observe("S", S)
+        for i in R3:
+            for j in R3:
+                ctx.prove("Sijmn(D) is -1/2 C_lkmn (D_iklj + D_jkli)", ctx.all([ctx.eq(S[i, j, m, n], Sref[i, j, m, n], atol=1e-12) for m in R3 for n in R3]))
+        E = np.array(se.params.eigenstrain)
+        X = {(k_, l): sum((Sref[k_, l, m, n] * E[m, n] for m in R3 for n in R3), 0.0 * c11) - E[k_, l] for k_ in R3 for l in R3}
+        sig = {(i, j): sum((C4[i, j, k_, l] * X[k_, l] for (i_, j_, k_, l) in nzC if (i_, j_) == (i, j)), 0.0 * c11) for i in R3 for j in R3}
+        V = 4 * np.pi / 3 * (r[0] * r[1] * r[2])
+        ctx.prove("ellipsoid(4th) is the homogeneous-inclusion energy -1/2 V sigma_ij eps_ij with sigma = C (S eps - eps)",
+                  ctx.eq(base["ellipsoid(4th)"], -0.5 * V * sum((sig[i, j] * E[i, j] for i in R3 for j in R3), 0.0 * c11)))
     if "compute" in claims:
-        ctx.prove("StrainEnergy.compute uses Bohm's formula", ctx.eq(se.compute(rr) * 1, base["bohm(4th)"]))
+        rec = []
+        orig = d.strainEnergyBohm
+
+        def spy(radius):
+            v = orig(radius)
+            rec.append(v)
+            return v
+        d.strainEnergyBohm = spy
+        u = se.compute(rr) * 1
+        del d.strainEnergyBohm
+        ctx.prove("StrainEnergy.compute evaluates Bohm's formula (the general, two-stiffness one) exactly once", len(rec) == 1)
+        ctx.prove("StrainEnergy.compute returns Bohm's energy", ctx.eq(u, base["bohm(4th)"]) if len(rec) == 1 else False)
     if "volume" in claims:
         big = {k: f(s * rr) for k, f in fs.items()}
         for k in fs:
@@ -522,12 +585,36 @@ def energy_form(ctx, prec="same", eig="diag", dpat="ortho", claims=("compute", "
         for k in fs:
             ctx.prove("%s: E(t eps) = t^2 E(eps)" % k, ctx.eq(quad[k], t * t * base[k]))
         se.setEigenstrain(e1)
-    if "rank" in claims:
+    if "rank_ell" in claims:
         ctx.prove("ellipsoid: 6x6 and 4th-rank formulations agree", ctx.eq(base["ellipsoid(6x6)"], base["ellipsoid(4th)"]))
+    if "rank_bohm" in claims:
         ctx.prove("bohm: 6x6 and 4th-rank formulations agree", ctx.eq(base["bohm(6x6)"], base["bohm(4th)"]))
-    if "homogeneous" in claims and prec != "other":
+    if "homog4" in claims and prec != "other":
         ctx.prove("bohm(4th) reduces to the homogeneous-inclusion energy", ctx.eq(base["bohm(4th)"], base["ellipsoid(4th)"]))
+    if "homog6" in claims and prec != "other":
         ctx.prove("bohm(6x6) reduces to the homogeneous-inclusion energy", ctx.eq(base["bohm(6x6)"], base["ellipsoid(6x6)"]))
+
+
+def energy_form(ctx, prec="same", claims=ALL_CLAIMS, general=False):
+    """real strainEnergyEllipsoid / Ellipsoid2ndRank / Bohm / Bohm2ndRank and Sijmn on an opaque D (the quadrature result),
+    aligned cubic crystal(s), eigenstrain diagonal in the crystal axes: energy is quadratic in the eigenstrain, proportional
+    to the volume (cube of a uniform scaling), the 6x6 and 4th-rank formulations agree, and Bohm's formula reduces to the
+    homogeneous-inclusion result when both stiffnesses coincide"""
+    if general:
+        # the 4th-rank homogeneous formulation against the textbook for any symmetric eigenstrain, any D, matrix rotated about z
+        _energy_core(ctx, prec, "full", "free", ("textbook",), True)
+    else:
+        _energy_core(ctx, prec, "diag", "ortho", tuple(claims), False)
+
+
+def energy_shear(ctx, case="shear"):
+    """the same agreement clauses where a shear component takes part (eigenstrain with off-diagonal entries, or a cubic matrix
+    rotated about z): KNOWN to fail -- the 6x6 routines contract Voigt rows without the factor 2 on shear entries and
+    invert4rankTensor is not the 4th-rank inverse on shear components"""
+    if case == "shear":
+        _energy_core(ctx, "same", "full", "ortho", ("rank_ell", "rank_bohm", "homog4"), False)
+    else:
+        _energy_core(ctx, "same", "diag", "free", ("rank_ell",), True)
 
 
 # ------------------------------------------------------------------------------------------------ the quadrature sum itself
@@ -557,6 +644,19 @@ def dijkl(ctx, k=1, what="scale"):
         for i in R3:
             for j in R3:
                 ctx.prove("Dijkl(s r) = Dijkl(r)", ctx.all([ctx.eq(D1[i, j, k_, l], D0[i, j, k_, l]) for k_ in R3 for l in R3]))
+    elif what == "additive":
+        # the quadrature is a plain sum over its nodes: with Dijkl(s r) = Dijkl(r) for ONE arbitrary node this gives the
+        # scaling invariance for any number of nodes
+        phi, theta, w = d.midPhiGrid, d.midThetaGrid, d.midWeights
+        parts = []
+        for q in range(k):
+            d.midPhiGrid, d.midThetaGrid, d.midWeights = phi[q:q + 1], theta[q:q + 1], w[q:q + 1]
+            parts.append(d.Dijkl(rr, c4))
+        d.midPhiGrid, d.midThetaGrid, d.midWeights = phi, theta, w
+        for i in R3:
+            for j in R3:
+                ctx.prove("Dijkl over k nodes = sum of the single-node results",
+                          ctx.all([ctx.eq(D0[i, j, k_, l], sum(pt[i, j, k_, l] for pt in parts), atol=1e-12) for k_ in R3 for l in R3]))
     else:
         # what the configured inversion routine is handed: the symmetric Christoffel matrices C_iklj n_k n_l of the nodes
         seen = []
@@ -577,6 +677,51 @@ def dijkl(ctx, k=1, what="scale"):
                 ctx.prove("argument is symmetric", ctx.all([ctx.eq(m[i, j, q], m[j, i, q]) for i in R3 for j in R3]))
                 ctx.prove("argument is C_iklj n_k n_l with n the unit normal of the node",
                           ctx.all([ctx.eq(m[i, j, q], sum(c4[i, a_, b_, j] * n[a_] * n[b_] for a_ in R3 for b_ in R3), atol=1e-12) for i in R3 for j in R3]))
+
+
+# ------------------------------------------------------------------------------------------------ isotropic sphere through Eshelby's tensor
+
+def eshelby_sphere(ctx, via="constants"):
+    """isotropic matrix, sphere, quadrature replaced by the exact value of the surface integral: the real Dijkl/Sijmn give
+    the textbook Eshelby tensor and every energy formulation gives 2G(1+nu)/(1-nu) eps^2 V"""
+    G = ctx.real("G", (0.5, 2.0)); nu = ctx.real("nu", (0.05, 0.45)); eps = ctx.real("eps", (-0.05, 0.05)); R = ctx.real("R", (0.5, 2.0))
+    ctx.assume(G > 0); ctx.assume(nu > -1); ctx.assume(2 * nu < 1); ctx.assume(R > 0)
+    lam = 2 * G * nu / (1 - 2 * nu)
+    se = StrainEnergy()
+    se.setEllipsoidal()
+    if via == "constants":
+        se.setElasticConstants(lam + 2 * G, lam, G)
+    else:
+        ctx.assume(ctx.neg(ctx.eq(nu, 0.0, rtol=0.0)))
+        se.setModuli(G=G, nu=nu)
+    se.setEigenstrain(eps)
+    d = se.description
+    dl = lambda i, j: 1.0 if i == j else 0.0
+    # exact surface integral of ohm_ij n_k n_l / beta^3 over the unit sphere for an isotropic medium and beta = R:
+    # ohm_ij = (delta_ij - n_i n_j / (2 (1 - nu))) / G, <n_k n_l> = delta_kl / 3, <n_i n_j n_k n_l> = (dd + dd + dd) / 15
+    T = np.zeros((3, 3, 3, 3))
+    for (i, j, k, l) in IDX4:
+        iso4 = dl(i, j) * dl(k, l) + dl(i, k) * dl(j, l) + dl(i, l) * dl(j, k)
+        if iso4 != 0:
+            T[i, j, k, l] = 4 * np.pi / (R * R * R) * (10 * (1 - nu) * dl(i, j) * dl(k, l) - iso4) / (30 * (1 - nu) * G)
+    d.sphInt = lambda radius, c4: T
+    rr = np.array([R, R, R])
+    S = d.Sijmn(d.Dijkl(rr, se.params.cMatrix_4th))
+    ctx.observe("S", S)
+    k15 = 15 * (1 - nu)
+    ref = lambda i, j, k, l: (5 * nu - 1) / k15 * dl(i, j) * dl(k, l) + (4 - 5 * nu) / k15 * (dl(i, k) * dl(j, l) + dl(i, l) * dl(j, k))
+    for i in R3:
+        for j in R3:
+            ctx.prove("Eshelby tensor of the sphere has its textbook components",
+                      ctx.all([ctx.eq(S[i, j, k, l], ref(i, j, k, l), atol=1e-12) for k in R3 for l in R3]))
+    V = 4 * np.pi / 3 * R ** 3
+    closed = 2 * G * (1 + nu) / (1 - nu) * eps ** 2 * V
+    fs = {"ellipsoid(4th)": d.strainEnergyEllipsoid, "ellipsoid(6x6)": d.strainEnergyEllipsoid2ndRank,
+          "bohm(4th)": d.strainEnergyBohm, "bohm(6x6)": d.strainEnergyBohm2ndRank, "compute": lambda r_: se.compute(r_) * 1}
+    for k, f in fs.items():
+        u = f(rr)
+        ctx.observe(k, u)
+        ctx.prove("%s: E = 2G(1+nu)/(1-nu) eps^2 V" % k, ctx.eq(u, closed))
 
 
 _F_CONV = [convert2To4rankTensor, convert4To2rankTensor, convertVecTo2rankTensor, convert2rankToVec]
@@ -606,7 +751,10 @@ HARNESSES = [
             assumptions=["inputs describe a mechanically stable isotropic solid: E, G, K, M > 0, -1 < nu < 1/2 (expressed on the two given moduli)",
                          "nu != 0 and lam != 0 (a zero modulus is indistinguishable from 'not given'; covered by C16.moduli_zero)"],
             stubs=["np.linalg.inv(6x6): captured (cut); continuation uses the exact inverse of the block-diagonal matrix (3x3 cofactor blocks)"],
-            params={"quick": [{"pair": list(p), "full": False} for p in PAIRS] , "thorough": [{"pair": list(p), "full": True} for p in PAIRS]}),
+            params={"quick": [{"pair": list(p), "full": True} for p in PAIRS], "thorough": [{"pair": list(p), "full": True} for p in PAIRS]}),
+    Harness("C16.moduli_zero", moduli_zero, functions=[moduliToC], opts={"inv_hook": _capturing_inv, "ob_timeout": 30.0},
+            assumptions=["as C16.moduli, with nu = 0 / lam = 0 admitted"], stubs=["np.linalg.inv(6x6): exact inverse of the block-diagonal compliance"],
+            params={"quick": [{"pair": list(p)} for p in ZERO_PAIRS], "thorough": [{"pair": list(p)} for p in ZERO_PAIRS]}),
     Harness("C16.iso_sphere", iso_sphere, functions=_F_SE + [SphericalEnergyDescription._Khachaturyan, SphericalEnergyDescription.computeStrainEnergy, moduliToC, elasticConstantToC],
             opts={"inv_hook": _capturing_inv, "ob_timeout": 30.0},
             assumptions=["G > 0, -1 < nu < 1/2, R > 0; eigenstrain is dilatational (eps * identity)"],
@@ -621,15 +769,25 @@ HARNESSES = [
             assumptions=["R = +-Q(q), the quaternion parametrisation of O(3) (orthogonal iff |q| = 1); isotropic stiffness c11 = lam + 2G, c12 = lam, c44 = G"],
             params={"quick": [{"order": "after"}, {"order": "before", "improper": True}],
                     "thorough": [{"order": o, "improper": i} for o in ("after", "before") for i in (False, True)]}),
-    Harness("C16.energy_form", energy_form, functions=_F_SE + _F_ELL, opts={"ob_timeout": 40.0, "name_threshold": 10 ** 6, "inv_hook": _exact_inv},
+    Harness("C16.energy_form", energy_form, functions=_F_SE + _F_ELL, opts={"ob_timeout": 40.0, "name_threshold": 10 ** 6, "inv_hook": _exact_inv, "fast_first": False},
             assumptions=["positive-definite cubic stiffness, axes of matrix, precipitate and ellipsoid aligned (no rotation)", "eigenstrain diagonal in these axes",
                          "D (result of the quadrature) opaque with the mirror-symmetry pattern of this configuration; D(s r) = D(r) (shown in C16.dijkl)"],
             stubs=["EllipsoidalEnergyDescription.Dijkl: returns the opaque D", "np.linalg.inv(6x6): exact inverse (block diagonal after simplification)"],
-            params={"quick": [{"prec": "same"}, {"prec": "equal"}, {"prec": "other"}],
-                    "thorough": [{"prec": "same"}, {"prec": "equal"}, {"prec": "other"}]}),
+            params={"quick": [{"prec": "same", "claims": ["textbook"]}, {"prec": "same", "general": True}, {"prec": "same", "claims": ["compute", "volume", "rank_ell", "rank_bohm"]}, {"prec": "same", "claims": ["quadratic"]}, {"prec": "same", "claims": ["homog4", "homog6"]},
+                              {"prec": "equal", "claims": ["homog4", "homog6", "compute"]},
+                              {"prec": "other", "claims": ["compute", "volume", "rank_ell", "rank_bohm"]}, {"prec": "other", "claims": ["quadratic"]}],
+                    "thorough": [{"prec": "same"}, {"prec": "equal"}, {"prec": "other"}, {"prec": "same", "general": True}]}),
+    Harness("C16.energy_shear", energy_shear, functions=_F_SE + _F_ELL, opts={"ob_timeout": 40.0, "name_threshold": 10 ** 6, "inv_hook": _exact_inv, "fast_first": False},
+            assumptions=["as C16.energy_form but with a symmetric eigenstrain with shear components (case shear), or with the cubic matrix rotated about z and an arbitrary D (case rot)"],
+            stubs=["EllipsoidalEnergyDescription.Dijkl: returns the opaque D", "np.linalg.inv(6x6): exact inverse (block diagonal after simplification)"],
+            params={"quick": [{"case": "shear"}, {"case": "rot"}], "thorough": [{"case": "shear"}, {"case": "rot"}]}),
     Harness("C16.dijkl", dijkl, functions=_F_SE + [_E.Dijkl, _E.sphInt, _E._n, _E._beta, _E._ohm_quickInverse, _E._ohm_npinv], opts={"ob_timeout": 40.0, "inv_hook": _exact_inv},
             assumptions=["positive-definite cubic stiffness, semi-axes > 0, scaling s > 0", "sin/cos uninterpreted with sin^2 + cos^2 = 1"],
             stubs=["Lebedev node table replaced by k nodes with symbolic angles and weights (state of the integrator)", "np.linalg.inv on a (k,3,3) stack: exact inverse"],
-            bounds={"quadrature nodes": "k"},
-            params={"quick": [{"k": 1, "what": "scale"}, {"k": 2, "what": "ohm_arg"}], "thorough": [{"k": 2, "what": "scale"}, {"k": 3, "what": "ohm_arg"}]}),
+            bounds={"quadrature nodes": "scaling: one arbitrary node + additivity over k nodes; argument of the inversion: k nodes"},
+            params={"quick": [{"k": 1, "what": "scale"}, {"k": 2, "what": "additive"}, {"k": 2, "what": "ohm_arg"}], "thorough": [{"k": 1, "what": "scale"}, {"k": 3, "what": "additive"}, {"k": 3, "what": "ohm_arg"}]}),
+    Harness("C16.eshelby_sphere", eshelby_sphere, functions=_F_SE + _F_ELL + [_E.Dijkl, moduliToC], opts={"ob_timeout": 40.0, "inv_hook": _exact_inv, "name_threshold": 10 ** 6, "fast_first": False},
+            assumptions=["G > 0, -1 < nu < 1/2, R > 0, dilatational eigenstrain", "the quadrature is exact (sphInt returns the exact surface integral for the isotropic sphere)"],
+            stubs=["EllipsoidalEnergyDescription.sphInt: exact value of the integral (textbook isotropic Green function moments)", "np.linalg.inv(6x6): exact inverse"],
+            params={"quick": [{"via": "constants"}], "thorough": [{"via": "constants"}, {"via": "moduli"}]}),
 ]
